@@ -86,6 +86,16 @@ def _linearity(which):
         a, b = c.cos(gamma), c.sin(gamma)
         for comp in range(3):
             c.ensures("linear-in-polarization", c.eq(E[comp][0], a * Ex[comp][0] + b * Ey[comp][0]))
+        # a polarization handed over as a labelled vector that is not of unit length (to_vector passes labelled vectors through
+        # unchanged): only its direction may matter
+        length = c.real("polarization_length", pos=True, sample=(0.3, 6))
+        with mielens_kernels():
+            A = (lambda v: np.array(v, dtype=object if c.symbolic else float))
+            labelled = xr.DataArray(A([length * a, length * b, 0 * length]), dims=['vector'], coords={'vector': ['x', 'y', 'z']})
+            sph = Sphere(n=m, r=x, center=(0, 0, 0))
+            El = c.call(th.raw_fields, np.array([A([rho]), A([phi]), A([kz])]), sph, 1, 1, labelled)
+        for comp in range(3):
+            c.ensures("only-the-direction-of-the-polarization-matters", c.eq(El[comp][0], E[comp][0]))
         c.canary("independent-of-polarization", c.eq(E[0][0], Ex[0][0]))
     body.__doc__ = ("%s: the scattered field for the unit polarization (cos g, sin g) equals cos g * field_x + sin g * field_y, at every "
                     "detector point (hence (a*field_x + b*field_y)/|(a,b)| for polarization (a, b), which the interface normalises)" % which)
@@ -127,9 +137,13 @@ def multi_channel(c):
     # the three per-channel dictionaries need not list the channels in the same order: matching is by label, never by position
     pol_order = c.choice("polarization_label_order", [("red", "green"), ("green", "red")])
     n_order = c.choice("index_label_order", [("red", "green"), ("green", "red")])
-    lam = {"red": c.real("lam_red", pos=True, sample=(0.6, 0.7)), "green": c.real("lam_green", pos=True, sample=(0.5, 0.56))}
+    # channels may also share their optics (two colour channels of a camera under one laser) and differ only in the scatterer's
+    # per-channel index: each channel is still computed with its own values
+    same_optics = c.choice("channels_share_wavelength_and_polarization", [False, True])
+    lam_r = c.real("lam_red", pos=True, sample=(0.6, 0.7))
+    lam = {"red": lam_r, "green": lam_r if same_optics else c.real("lam_green", pos=True, sample=(0.5, 0.56))}
     nidx = {"red": c.real("n_red", pos=True, sample=(1.4, 1.6)), "green": c.real("n_green", pos=True, sample=(1.5, 1.7))}
-    pol = {"red": (1, 0), "green": (0, 1)}
+    pol = {"red": (1, 0), "green": (1, 0) if same_optics else (0, 1)}
     r = c.real("r", pos=True, sample=(0.2, 1))
     cen = [c.real("cx", sample=(-1, 1)), c.real("cy", sample=(-1, 1)), c.real("cz", sample=(3, 9))]
     det = detector_grid((2, 1), 0.1, extra_dims={'illumination': list(order)})
